@@ -468,7 +468,7 @@ def batch_script(batch, d, bins, limit, execs=None):
 
 def harness_env(batch):
     e = {"XCM_CTL": "/nonexistent-verif", "XCM_TLS_CERT": vlib.BUILD + "/creds/default",
-         "ASAN_OPTIONS": "detect_leaks=0:abort_on_error=0:detect_stack_use_after_return=1:exitcode=3",
+         "ASAN_OPTIONS": "detect_leaks=0:max_malloc_fill_size=4194304:malloc_fill_byte=165:abort_on_error=0:detect_stack_use_after_return=1:exitcode=3",
          "UBSAN_OPTIONS": "print_stacktrace=1:halt_on_error=1:suppressions=%s/shim/ubsan.supp" % vlib.V}
     if batch["var"] == "sb":
         e["C20_SNDBUF"] = str(batch["sndbuf"])
@@ -516,6 +516,18 @@ def started_ok(res):
     return False
 
 
+def calib_stalled(res):
+    """the relay process was alive after the calibration connection through it had failed"""
+    con = alive = False
+    for ln in res["trace"][:6]:
+        r = json.loads(ln)
+        if r["ev"] == "con" and r["res"] == "fail":
+            con = True
+        if r["ev"] == "rly" and r["st"] == 1 and con:
+            alive = True
+    return con and alive
+
+
 def run_all(batches, root, bins, limit, nproc):
     out = {}
 
@@ -528,6 +540,11 @@ def run_all(batches, root, bins, limit, nproc):
                 last = r
                 continue
             return r
+        if last["rc"] != 2 and calib_stalled(last):
+            # three times, on fresh addresses, the relay was up and running and the very first connection through it was
+            # not established: not the machinery's failure but the relay's ("neither exits nor stalls")
+            last["calib_stall"] = True
+            return last
         raise InternalError("relay / harness could not be started for %s-%s (%s): rc %s\n%s\n%s"
                             % (b["a"], b["b"], b["var"], last["rc"], "\n".join(last["trace"][:5]), last["relay_out"][-1500:]))
 
@@ -726,6 +743,13 @@ def check(pid, tier, seed):
         body = replay_body(b, e, rr["res"]["script"], v, sig, n, pairs)
         rp = vlib.save_replay(pid, "%s.script" % key.replace("C20.", "").replace("/", "_").replace(" ", "_"), body)
         violations.append(("conformance", "%s [%d executions; pairs: %s]" % (describe(v, b, e), n, " ".join(pairs)[:400]), rp))
+    for b in batches:
+        r = results[b["id"]]
+        if r.get("calib_stall"):
+            rp = vlib.save_replay(pid, "calib_stall_%s_%s.script" % (b["a"], b["b"]), "\n".join(r["script"]) + "\n# " + "\n# ".join(r["trace"][:4]) + "\n")
+            violations.append(("conformance", "C20.stall: the first connection through the running relay on %s-%s (%s) was not established "
+                               "(three attempts on fresh addresses): %s" % (b["a"], b["b"], b["var"], r["trace"][1][:300]), rp))
+            break
     for b, rep, r in crashes:
         sig = {"tag": "C20.crash", "detail": rep[:80], "class": "C20.crash"}
         if vlib.match_finding(pid, sig):
